@@ -258,13 +258,17 @@ contract(M + "ScenarioOutlineBuilder.render_template", props=["C06"],
 oracle("bs_off", ["ref", "int"], "int")     # number of rows in the first k examples blocks of an outline (blocks without table: 0)
 EX = "scenario_outline.examples"
 _ROWS = "as_ref(%s.table, 'Table').rows"
-contract("abs:make_scenario_for", trusted=True, params={"self": "ref:ScenarioOutlineBuilder"},
+oracle("text_of", ["val"], "val:str")          # six.text_type(x)
+contract("abs:make_scenario_for", trusted=True, params={"self": "ref:ScenarioOutlineBuilder", "example": "ref:Examples", "row": "ref:Row"},
          pos_params=["self", "example", "row", "scenario_template", "params"], fresh_result="Scenario",
+         requires={"the-row-placeholders-row.id-and-row.index-describe-this-row":
+                   "dict_value(params, 'row.id') == row.id and dict_value(params, 'row.index') == text_of(row.index)"},
          modifies=["dict(params)", "*.status", "*.hook_failed", "*.duration", "*.exception", "*.exc_traceback",
                    "*.error_message", "*.captured", "*._background_steps", "*._inherited_steps"],
          ensures={"the-row's-scenario": "result._row is row and result.parent is scenario_template and exact_type(result, 'Scenario')"},
          doc="call-site view of make_scenario_for in build_scenarios (a new Scenario belonging to the row; proved above)")
-contract("abs:_text", trusted=True, pos_params=["x"], pure=True, result="str", doc="six.text_type(x)")
+contract("abs:_text.bs", trusted=True, pos_params=["x"], pure=True, result="str", ensures={"value": "result == text_of(x)"},
+         doc="six.text_type(x) as a function of x")
 _BS_COMMON = {
     "earlier-entries-are-the-rows-of-the-earlier-blocks":
         "forall(lambda e, r: implies(0 <= e < %(ei)s and not is_none(%(ex)s[e].table) and 0 <= r and "
@@ -285,7 +289,7 @@ _BS_MOD = ["list(scenarios)", "dict(params)", "*.modified", "*.index", "*.id", "
 contract(M + "ScenarioOutlineBuilder.build_scenarios", props=["C06", "C10", "C17", "C03", "C09", "C14", "C16"],
          params={"self": "ref:ScenarioOutlineBuilder", "scenario_outline": "ref:ScenarioOutline"},
          self_classes=["ScenarioOutlineBuilder"],
-         callsites={"self.make_scenario_for": "abs:make_scenario_for", "_text": "abs:_text"},
+         callsites={"self.make_scenario_for": "abs:make_scenario_for", "_text": "abs:_text.bs"},
          requires={"tables-are-not-shared-between-examples-blocks":
                    "forall(lambda a, b: implies(0 <= a < b and b < len(%(ex)s) and not is_none(%(ex)s[a].table), "
                    "%(ex)s[a].table is not %(ex)s[b].table))" % {"ex": EX}},
